@@ -77,6 +77,7 @@ NoPositiveCycleD(r, dim) == LET D == DiffsOf(r, dim)
                                 dn == RelaxD(r, D, [v \in 0..(r.n - 1) |-> 0], r.n)
                             IN  RelaxD(r, D, dn, 1) = dn
 MakeFeasibleOnly(r) == (r.flags \div 32) % 2 = 1
+\* (every tag is a tuple -- <<name>> or <<name, class>>: TLC cannot hold strings and tuples in one set)
 C07Tags(r) ==
     IF ~r.thrown /\ MakeFeasibleOnly(r) THEN
         (IF OnlyPlainSeparations(r) /\ NoPositiveCycle(r, 0) /\ NoPositiveCycle(r, 1)
@@ -90,9 +91,9 @@ C07Tags(r) ==
          \*  a cycle and makeFeasible() drops it without a record: known finding F52, so this class has a key of its own)
          THEN {<<"makeFeasible-leaves-a-satisfiable-constraint-violated", "system-with-equalities-or-alignments">>}
          ELSE {}) ELSE
-    IF r.thrown THEN {"exception"} ELSE
+    IF r.thrown THEN {<<"exception">>} ELSE
     LET rep == ToSet(r.reported) IN
-    (IF \E i \in 1..r.n : r.pos[i][1] = SENT \/ r.pos[i][2] = SENT THEN {"non-finite-coordinate"} ELSE
+    (IF \E i \in 1..r.n : r.pos[i][1] = SENT \/ r.pos[i][2] = SENT THEN {<<"non-finite-coordinate">>} ELSE
      IF \E i \in 1..r.n : r.pos[i][1] = FAR \/ r.pos[i][2] = FAR THEN {} ELSE
        \* a violated, unreported constraint in a dimension where some constraint was reported although it holds in the result: the
        \* unsatisfiable-constraint lists are filled by the descent steps only, not by the projection that produces the final positions
@@ -109,7 +110,7 @@ C07Tags(r) ==
         \* the same mechanism when what was reported is one of the library's own non-overlap constraints (index 0 in the record)
         ELSE IF 0 \in rep /\ r.flags % 2 = 1 THEN <<"unreported-constraint-violated", "a-non-overlap-constraint-was-reported-instead">>
         ELSE <<"unreported-constraint-violated", KindName(r.cons[i].kind)>> : i \in {i \in DOMAIN r.cons : i \notin rep /\ ~Holds(r, rep, r.cons[i])}})
-    \cup (IF \E i \in 1..r.n : Abs(r.dim[i][1] - r.size[i][1] * S) > 1 \/ Abs(r.dim[i][2] - r.size[i][2] * S) > 1 THEN {"size-changed"} ELSE {})
+    \cup (IF \E i \in 1..r.n : Abs(r.dim[i][1] - r.size[i][1] * S) > 1 \/ Abs(r.dim[i][2] - r.size[i][2] * S) > 1 THEN {<<"size-changed">>} ELSE {})
 \* ---- overlap avoidance and cluster containment (C08) -----------------------------
 OvTol == (S \div 1000) + 2                       \* 1e-3
 Lo(r, i, d) == r.pos[i][d] - (r.size[i][d] * S) \div 2
@@ -122,15 +123,15 @@ BoxesOverlap(r, A, B) == \A d \in {1, 2} : (IF BoxHi(r, A, d) < BoxHi(r, B, d) T
                                            - (IF BoxLo(r, A, d) > BoxLo(r, B, d) THEN BoxLo(r, A, d) ELSE BoxLo(r, B, d)) > OvTol
 C08Tags(r) ==
     IF r.thrown \/ r.reported # <<>> \/ r.flags % 2 = 0 \/ (r.flags \div 2) % 2 = 0 \/ (\E i \in 1..r.n : r.pos[i][1] \in {SENT, FAR} \/ r.pos[i][2] \in {SENT, FAR}) THEN {} ELSE
-    (IF \E i \in 1..r.n, j \in 1..r.n : i < j /\ ~Exempt(r, i, j) /\ Overlap(r, i, j) THEN {"nodes-overlap"} ELSE {})
+    (IF \E i \in 1..r.n, j \in 1..r.n : i < j /\ ~Exempt(r, i, j) /\ Overlap(r, i, j) THEN {<<"nodes-overlap">>} ELSE {})
     \* cluster hierarchy: the members of a cluster are its own nodes and those of its descendants (parent = 0: child of the root)
     \cup (LET RECURSIVE Anc(_, _)
                Anc(a, b) == b # 0 /\ (r.clusters[b].parent = a \/ Anc(a, r.clusters[b].parent))          \* a is a proper ancestor of b
                Mem(a) == ToSet(r.clusters[a].nodes) \cup UNION {ToSet(r.clusters[b].nodes) : b \in {b \in DOMAIN r.clusters : Anc(a, b)}}
            IN  (IF \E a \in DOMAIN r.clusters, b \in DOMAIN r.clusters : a < b /\ r.clusters[a].parent = r.clusters[b].parent /\ Mem(a) # {} /\ Mem(b) # {}
-                        /\ BoxesOverlap(r, Mem(a), Mem(b)) THEN {"sibling-clusters-overlap"} ELSE {})
+                        /\ BoxesOverlap(r, Mem(a), Mem(b)) THEN {<<"sibling-clusters-overlap">>} ELSE {})
                \cup (IF \E a \in DOMAIN r.clusters, i \in 1..r.n : Mem(a) # {} /\ i \notin Mem(a) /\ BoxesOverlap(r, Mem(a), {i})
-                     THEN {"foreign-node-inside-cluster"} ELSE {}))
+                     THEN {<<"foreign-node-inside-cluster">>} ELSE {}))
 Tags(r) == IF Data.which = "C07" THEN C07Tags(r) ELSE C08Tags(r)
 NonTrivial(r) == ~r.thrown /\ (IF Data.which = "C07" THEN r.cons # <<>> ELSE \E i \in 1..r.n, j \in 1..r.n : i < j /\ Abs(r.init[i][1] - r.init[j][1]) * 2 < r.size[i][1] + r.size[j][1] /\ Abs(r.init[i][2] - r.init[j][2]) * 2 < r.size[i][2] + r.size[j][2])
 VARIABLES k, phase, bad
